@@ -56,6 +56,7 @@ const (
 	FlagChain              // caller's context derives from an earlier intercepted call's context
 	FlagRetry              // completed with an error, the call is attempted once more with the same context (gRPC's retries)
 	FlagRepick             // told to wait, the call is picked again (same context) once a newer picker exists, as gRPC does
+	FlagOverlap            // serial plans, completion followed by a connection report: the completion callback runs only Op.N scheduling decisions before the report starts (they overlap)
 )
 
 // Conn event selectors (Op.B for OpConn).
@@ -601,6 +602,7 @@ func Generate(r *rand.Rand, profile string, concurrent bool, av Avoid) *Plan {
 	// with no response in between (all its calls run into their deadline), then
 	// one more round whose wait is a small multiple of the detection window: the
 	// only histories in which the backoff exponent exceeds 1.
+	extremeWin := false // the plan waits for hours to weeks of simulated time
 	if profile == "refresh" && !concurrent && p.Cfg.UMs > 0 && p.Cfg.UCalls > 0 && r.IntN(3) == 0 && len(p.Ops) > 4 {
 		k := r.IntN(nKeys)
 		n := int(p.Cfg.UCalls)
@@ -619,6 +621,7 @@ func Generate(r *rand.Rand, profile string, concurrent bool, av Avoid) *Plan {
 			// of milliseconds), or a window of a few milliseconds doubled more than
 			// thirty times (no round-robin BIND there: a waiting one polls every 100 ms)
 			p.Cfg.RR = false
+			extremeWin = true
 			switch r.IntN(4) {
 			case 0:
 				p.Cfg.UMs, rounds = 1<<31, 1+r.IntN(3)
@@ -629,6 +632,15 @@ func Generate(r *rand.Rand, profile string, concurrent bool, av Avoid) *Plan {
 			default:
 				p.Cfg.UMs, rounds = uint32(1+r.IntN(3)), 30+r.IntN(5)
 			}
+		}
+		// One call of the channel stays in flight and gets its reply exactly while
+		// the last takeover is being processed (its completion callback is a few
+		// scheduling decisions old when the replacement's READY report starts):
+		// "k = refreshes since the last response" is 0 or 1 afterwards, whichever
+		// came first - never what it was plus one.
+		ovl := r.IntN(3) == 0 && rounds <= 10 && p.Cfg.UMs < 100000
+		if ovl {
+			frag = append(frag, Op{K: OpPick, B: MBound, Keys: []int{k}})
 		}
 		for j := 0; j <= rounds; j++ {
 			for c := 0; c < n; c++ {
@@ -647,7 +659,11 @@ func Generate(r *rand.Rand, profile string, concurrent bool, av Avoid) *Plan {
 				frag = append(frag, Op{K: OpDone, A: -1, B: OutClientDE})
 			}
 			if j < rounds {
-				frag = append(frag, Op{K: OpConn, A: -1, B: ConnProgress}, Op{K: OpConn, A: -1, B: ConnProgress})
+				frag = append(frag, Op{K: OpConn, A: -1, B: ConnProgress})
+				if ovl && j == rounds-1 {
+					frag = append(frag, Op{K: OpDone, A: -5, B: OutOK, F: FlagOverlap, N: r.IntN(12)})
+				}
+				frag = append(frag, Op{K: OpConn, A: -1, B: ConnProgress})
 				if r.IntN(4) > 0 {
 					// the next calls start strictly after the takeover (a call started at that
 					// very instant is "after the last response" or not, as one likes)
@@ -696,6 +712,47 @@ func Generate(r *rand.Rand, profile string, concurrent bool, av Avoid) *Plan {
 		}
 		frag = round(frag)
 		frag = append(frag, Op{K: OpPick, B: MPlain}, Op{K: OpConn, A: -1, B: ConnProgress}, Op{K: OpConn, A: -1, B: ConnProgress}, Op{K: OpPick, B: MPlain})
+		at := 1
+		ops := append([]Op{}, p.Ops[:at]...)
+		ops = append(ops, frag...)
+		p.Ops = append(ops, p.Ops[at:]...)
+	}
+	// Directed fragment (serial, round-robin BIND): a channel is being refreshed,
+	// the connection to be replaced reports SHUTDOWN (a live connection shut down
+	// under the pool), then the replacement comes up and takes the channel over:
+	// the pool is what it was, and the BIND calls that follow must walk it in
+	// creation order, one turn per channel.
+	if (profile == "rr" && r.IntN(25) == 0 || profile == "refresh" && r.IntN(60) == 0) && !concurrent && len(p.Ops) > 4 && p.Cfg.UMs <= 1000 && !extremeWin {
+		// (not with detection windows of hours to weeks: a round-robin BIND call
+		// that waits polls every 100 ms of the simulated time that passes there)
+		p.Cfg.RR = true
+		p.LiveShutdown = true
+		if p.Cfg.UMs == 0 || p.Cfg.UCalls == 0 {
+			p.Cfg.UMs, p.Cfg.UCalls = uint32(10*(1+r.IntN(5))), uint32(1+r.IntN(2))
+		}
+		size := 2 + r.IntN(3)
+		p.Cfg.Min, p.Cfg.Max = uint32(size), uint32(size)
+		k := r.IntN(nKeys)
+		n := int(p.Cfg.UCalls)
+		var frag []Op
+		for c := 0; c < size; c++ {
+			frag = append(frag, Op{K: OpConn, A: c, B: ConnProgress}, Op{K: OpConn, A: c, B: ConnProgress})
+		}
+		for c := r.IntN(size); c >= 0; c-- { // the key's home is any of the channels
+			frag = append(frag, Op{K: OpPick, B: MBind, Keys: []int{k}}, Op{K: OpDone, A: -1, B: OutOK, Keys: []int{k}})
+		}
+		for c := 0; c < n; c++ {
+			frag = append(frag, Op{K: OpPick, B: MBound, Keys: []int{k}, D: 1, E: 1})
+		}
+		frag = append(frag, Op{K: OpAdvance, E: int(p.Cfg.UMs) + 2})
+		for c := 0; c < n; c++ {
+			frag = append(frag, Op{K: OpDone, A: -1, B: OutClientDE})
+		}
+		frag = append(frag, Op{K: OpConn, A: -2, B: ConnShutdown}, // the connection that served those calls
+			Op{K: OpConn, A: -1, B: ConnProgress}, Op{K: OpConn, A: -1, B: ConnProgress}) // its replacement comes up
+		for c := 0; c < 2*size+2; c++ {
+			frag = append(frag, Op{K: OpPick, B: MBind, Keys: []int{0}}, Op{K: OpDone, A: -1, B: OutOK, Keys: []int{(k + 1 + c) % nKeys}})
+		}
 		at := 1
 		ops := append([]Op{}, p.Ops[:at]...)
 		ops = append(ops, frag...)
@@ -887,10 +944,28 @@ func Generate(r *rand.Rand, profile string, concurrent bool, av Avoid) *Plan {
 		if r.IntN(2) == 0 {
 			n -= 24 // stop a dozen channels short of maxSize: growth stays possible
 		}
+		if r.IntN(16) == 0 {
+			// more than 512 channels, all there from the start (minSize = maxSize): each
+			// comes up, then one held call per channel and a few more - every one of
+			// them belongs on a channel without a stream as long as there is one
+			size := 513 + r.IntN(120)
+			p.Cfg.Min, p.Cfg.Max = uint32(size), uint32(size)
+			frag = frag[:0]
+			for c := 0; c < size; c++ {
+				frag = append(frag, Op{K: OpConn, A: c, B: ConnProgress}, Op{K: OpConn, A: c, B: ConnProgress})
+			}
+			for c := 0; c < size+3; c++ {
+				frag = append(frag, Op{K: OpPick, B: MPlain})
+			}
+			n = 0
+		}
 		for c := 0; c < n; c++ {
 			// held call; when it saturates the pool it is told to wait and a channel is
 			// created: bring that one up and place one call there
 			frag = append(frag, Op{K: OpPick, B: MPlain}, Op{K: OpConn, A: -1, B: ConnProgress}, Op{K: OpConn, A: -1, B: ConnProgress})
+		}
+		if n == 0 {
+			n = int(p.Cfg.Max)
 		}
 		for c := 0; c < 12; c++ {
 			// one call completes somewhere in the pool: the next one belongs there
